@@ -211,6 +211,18 @@ struct Canon {
 
 struct Fact { std::string kind; std::string a, b, c; const Stmt* S; };
 
+// what a loop body calls and which variables it reads (canonical names), for rules about a body as a whole ("the loop that calls the
+// helper also tests the flag"); lambdas inside the body are not entered
+class BodyCollector : public RecursiveASTVisitor<BodyCollector> {
+public:
+  Canon& K; std::set<std::string> calls, refs;
+  BodyCollector(Canon& k) : K(k) {}
+  bool TraverseLambdaExpr(LambdaExpr*) { return true; }
+  bool VisitCallExpr(CallExpr* E) { std::string full = K.ex(E); calls.insert(full.substr(0, full.find('('))); return true; }
+  bool VisitDeclRefExpr(DeclRefExpr* D) { refs.insert(K.ex(D)); return true; }
+};
+static std::string joinSet(const std::set<std::string>& s) { std::string o; for (auto& x : s) { if (!o.empty()) o += ";"; o += x; } return o; }
+
 class FnVisitor : public RecursiveASTVisitor<FnVisitor> {
 public:
   ASTContext& C; Canon& K; std::vector<Fact>& facts; const FunctionDecl* F;
@@ -277,8 +289,14 @@ public:
     return true;
   }
   bool VisitCXXNewExpr(CXXNewExpr* N) { facts.push_back({"new", K.ex(N), "", "", N}); return true; }
-  bool VisitForStmt(ForStmt* S) { facts.push_back({"loop", "for", S->getCond() ? K.ex(S->getCond()) : "", S->getInc() ? K.ex(S->getInc()) : "", S}); return true; }
-  bool VisitWhileStmt(WhileStmt* S) { facts.push_back({"loop", "while", S->getCond() ? K.ex(S->getCond()) : "", "", S}); return true; }
+  void loopBody(const char* kind, Stmt* body, Stmt* S, Stmt* cond = nullptr) {
+    if (!body) return;
+    BodyCollector BC(K); BC.TraverseStmt(body);
+    if (cond) { BodyCollector CC(K); CC.TraverseStmt(cond); for (auto& r : CC.refs) BC.refs.insert(r); }   // a flag tested in the loop condition counts
+    facts.push_back({"loopbody", kind, joinSet(BC.calls), joinSet(BC.refs), S});
+  }
+  bool VisitForStmt(ForStmt* S) { facts.push_back({"loop", "for", S->getCond() ? K.ex(S->getCond()) : "", S->getInc() ? K.ex(S->getInc()) : "", S}); loopBody("for", S->getBody(), S, S->getCond()); return true; }
+  bool VisitWhileStmt(WhileStmt* S) { facts.push_back({"loop", "while", S->getCond() ? K.ex(S->getCond()) : "", "", S}); loopBody("while", S->getBody(), S, S->getCond()); return true; }
   bool VisitIfStmt(IfStmt* S) { facts.push_back({S->isConstexpr() ? "ifconstexpr" : "if", S->getCond() ? K.ex(S->getCond()) : "", "", "", S}); return true; }
 };
 
